@@ -29,12 +29,15 @@ theorem no_abbreviations : ∀ t ∈ Gen.Cli.tools, t.allowAbbrev = false := by 
 
 def actionConsts (t : Gen.Cli.Tool) : List Str := (t.actions.filter (·.inGroup)).map (·.const)
 
-/-- the three archivers require exactly one action out of the documented ones -/
+/-- the three archivers require exactly one action out of the documented ones (in whatever order the options are registered:
+    the order only shows in the help text) -/
 theorem archiver_actions :
     ∀ t ∈ Gen.Cli.tools,
-      (t.name = Tape.str "moto_tar" → t.groupRequired = true ∧ actionConsts t = [Tape.str "create", Tape.str "list", Tape.str "extract"]) ∧
+      (t.name = Tape.str "moto_tar" → t.groupRequired = true ∧ (actionConsts t).length = 3 ∧
+        ∀ c ∈ [Tape.str "create", Tape.str "list", Tape.str "extract"], c ∈ actionConsts t) ∧
       (t.name = Tape.str "moto_sdar" ∨ t.name = Tape.str "moto_fdar" →
-        t.groupRequired = true ∧ actionConsts t = [Tape.str "create", Tape.str "list", Tape.str "extract", Tape.str "add"]) := by
+        t.groupRequired = true ∧ (actionConsts t).length = 4 ∧
+        ∀ c ∈ [Tape.str "create", Tape.str "list", Tape.str "extract", Tape.str "add"], c ∈ actionConsts t) := by
   decide
 
 /-- every action of the exclusive group stores into the same destination: two of them conflict -/
